@@ -277,6 +277,12 @@ def main(chk):
         chk.fail("PanCore and the implementation disagree on a defer program although the trace oracle accepts the implementation",
                  {"correspondence": "Core.Interp.eval_body vs evaluator/eval_program.go", "program": r["src"],
                   "model": r.get("model"), "impl": r["impl"]}, no_input=True)
+    nd = [r for r in res if r["impl"].get("nondet")]
+    if nd and not viol:
+        r = nd[0]
+        chk.fail("the same defer program gives a different result the second time it is evaluated in one interpreter: first %s, then %s" % (
+            {k: r["impl"].get(k) for k in ("kind", "errk", "out")}, r["impl"]["nondet"][:1]),
+            {"program": r["src"], "first": r["impl"], "second": r["impl"]["nondet"][:2]}, klass="C15:second-evaluation")
     bad_other = [r for r in res if r["verdict"] in ("panic", "nocoq", "syntax")]
     if bad_other and not viol:
         r = bad_other[0]
